@@ -5,6 +5,7 @@ import PjrpcModel.Driver.SuiteDispatch
 import PjrpcModel.Driver.SuiteRegistry
 import PjrpcModel.Driver.SuiteAsync
 import PjrpcModel.Driver.SuiteClient
+import PjrpcModel.Driver.SuiteMocker
 open Pjrpc.Driver
 
 def handle (line : String) : String :=
@@ -18,6 +19,7 @@ def handle (line : String) : String :=
       | "registry" => suiteRegistry c
       | "async" => suiteAsync c
       | "client" => suiteClient c
+      | "mocker" => suiteMocker c
       | s => throw s!"unknown suite {s}"
     match r with
     | .ok j => j.compress
